@@ -165,6 +165,28 @@ CHECKS = {
              "and judged by TLC (formulas on the observation + agreement with Handle).",
         note="Trusted: TLC; POSIX semantics of the sandbox file system; directories created for an upload are not counted as files.",
         technique="TLA+ spec + TLC model checking; OS-level storage-fault enumeration on the real handler, judged by a TLC observation spec"),
+    "C17": dict(
+        engine="Proxy", design="8 C17, 5.8",
+        text="TLC enumerates (location prefix x strip x request path of <= 6 tokens with '/' as a token x query) - 93 744 cases - "
+             "and checks that the handler's mapping (string prefix + boundary test) equals the property's statement on segments "
+             "(FaithfulMap) and that the mapped path always starts with '/' (the authority cannot be extended); thousands of "
+             "routable cases go through the real Router (PREFIX route) -> real ProxyHandler -> real GeminiClient whose connection "
+             "is served by a recording peer: the (host, port) connected to and the request line received are compared with the "
+             "upstream authority and base + Map + query for six upstream forms (port, base path, trailing slash, IPv6 literal) and "
+             "hostile token spellings (@evil, :8080, ;p=1, %2f, .., //).",
+        note="Trusted: TLC; the recording peer. An empty segment directly after a trailing-slash prefix (/api//x under /api/) is "
+             "left undecided (grey)."),
+    "C18": dict(
+        engine="Proxy", design="8 C18, 5.8",
+        text="TLC checks OneOutcome, RedirectNotFollowed, MalformedIs43 on Relay over ~47 upstream scripts generated with real "
+             "lengths (every status class, UTF-8 / latin-1 / UTF-16 / unknown-charset / invalid text, binary, 1 MB, refusal, TLS "
+             "failure, connect timeout, close or reset before / inside the header, garbage and non-UTF-8 headers, out-of-range "
+             "status, bare LF / CR / over-long meta in ASCII and CJK, reset and stall mid-body, cap exactly / over); each script is "
+             "played by a scripted upstream behind the real ProxyHandler behind the real GeminiServerProtocol in virtual time: the "
+             "downstream bytes must be the upstream's header and body verbatim or a 43 within the location timeout, with one "
+             "upstream connection; random re-segmentation of the upstream stream must not change the relayed bytes.",
+        note="Trusted: TLC; scripted upstream transports. A FIN in the middle of a body is indistinguishable from its end and is "
+             "relayed as sent (left undecided, as in DESIGN.md)."),
 }
 
 ORDER = ["C01", "C02", "C03", "C04", "C05", "C06", "C07", "C08", "C09", "C10", "C11", "C12", "C13", "C14", "C15",
